@@ -85,9 +85,12 @@ def execute(case):
         def finish(i, exc):
             log(ev="cb.end", cb=i, raised=exc is not None, exc=exc_id(exc) if exc is not None else "none", cancel=isinstance(exc, C))
 
-        def make_exc(i, kind):
+        def make_exc(i, kind, args=()):
             if kind == "ok":
                 return None
+            if kind == "reraise":
+                # raises the very object it was handed (the block's exception), nothing after a clean exit or a cancellation
+                return args[0] if args and getattr(args[0], "hid", None) == "blk" else None
             x = HExc(f"cb{i}") if kind == "exc" else HBase(f"cb{i}")
             x.hid = f"cb{i}"
             return x
@@ -113,7 +116,7 @@ def execute(case):
                         await g.wait()
                         if during:
                             register_one_more()
-                        x = make_exc(i, kind)
+                        x = make_exc(i, kind, args)
                         if x:
                             raise x
                     except BaseException as e:
@@ -126,7 +129,7 @@ def execute(case):
                     begin(i, args)
                     if during:
                         register_one_more()
-                    x = make_exc(i, kind)
+                    x = make_exc(i, kind, args)
                     finish(i, x)
                     if x:
                         raise x
@@ -255,7 +258,8 @@ def suite_traces():
     for t in data:
         by_ctx = collections.OrderedDict()
         for e in t["events"]:
-            by_ctx.setdefault(e["ctx"], []).append(e)
+            if e["ev"] in ("reg", "cb.begin", "cb.end"):        # the context-operation events of the same hook belong to suitectx.py
+                by_ctx.setdefault(e["ctx"], []).append(e)
         for n, (ctx, evs) in enumerate(by_ctx.items()):
             if not any(e["ev"] == "cb.begin" for e in evs):
                 continue
@@ -284,7 +288,7 @@ def run(tier: str, seed: int) -> core.Report:
     cfg = open(tlc.SPECS / "MC_Teardown.cfg").read()
     runs = [cfg]
     # three callbacks with a thinner alphabet (order and exactly-once need three to tell LIFO from other orders)
-    runs.append(cfg.replace("MaxCbs = 2", "MaxCbs = 3").replace('Kinds = {"ok", "exc", "base"}', 'Kinds = {"ok", "exc"}')
+    runs.append(cfg.replace("MaxCbs = 2", "MaxCbs = 3").replace('Kinds = {"ok", "exc", "base", "reraise"}', 'Kinds = {"ok", "exc", "reraise"}')
                 .replace('Routes = {"direct", "resource", "resource2", "ctxtd"}', 'Routes = {"direct"}' if tier == "quick" else 'Routes = {"direct", "resource2", "ctxtd"}')
                 .replace("Durings = {TRUE, FALSE}", "Durings = {FALSE}" if tier == "quick" else "Durings = {TRUE, FALSE}"))
     programs = []
